@@ -56,7 +56,6 @@ type jsonPathProcessor struct {
 }
 
 func (p *ParserPlanner) jsonWithParams(str string, labels *map[string]string) (map[string]string, error) {
-	dec := jx.DecodeStr(str)
 	var pa []pathAhead
 	for i, path := range p.parameterTypedValues {
 		name := p.ParameterNames[i]
@@ -64,11 +63,14 @@ func (p *ParserPlanner) jsonWithParams(str string, labels *map[string]string) (m
 	}
 	// every named label is set, as the ClickHouse planner does for the same stage
 	// (mapUpdate(labels, mapFromArrays(names, values))): to the value its path leads to, to "" when the
-	// path leads nowhere or the line cannot be decoded
+	// path leads nowhere or the line as a whole is not a JSON document (the decoder stops after the first
+	// value: text after it, or a fault behind the last path, went unnoticed)
 	found := make(map[string]string, len(pa))
-	jpp := &jsonPathProcessor{labels: &found}
-	if err := jpp.process(dec, pa); err != nil {
-		found = nil
+	if jx.Valid([]byte(str)) {
+		jpp := &jsonPathProcessor{labels: &found}
+		if err := jpp.process(jx.DecodeStr(str), pa); err != nil {
+			found = nil
+		}
 	}
 	for _, a := range pa {
 		(*labels)[a.label] = found[a.label]
